@@ -203,6 +203,27 @@ pub fn record(rng: &mut SmallRng, n_events: usize, out: &mut dyn Write) {
                 writeln!(out, "{}", json!({"ev": op, "h": js(&h), "n": js(&n), "ret": ret})).unwrap();
                 left -= 1;
             }
+            // the same long needle as a byte-array pattern `&[u8; N]` through the slice::bytes_* twins
+            macro_rules! arr_ops { ($($N:literal),*) => { match n.len() { $( $N => {
+                let a: [u8; $N] = n.as_bytes().try_into().unwrap();
+                let (hb, p) = (h.as_bytes(), &a);
+                for op in ["find", "rfind", "contains", "rcontains", "find_skip", "find_keep", "rfind_skip", "rfind_keep"] {
+                    if left == 0 { break; }
+                    let ret = catch(std::panic::AssertUnwindSafe(|| match op {
+                        "find" => opt(slice::bytes_find(hb, p), |x| json!(x)),
+                        "rfind" => opt(slice::bytes_rfind(hb, p), |x| json!(x)),
+                        "contains" => json!(slice::bytes_contain(hb, p)),
+                        "rcontains" => json!(slice::bytes_rcontain(hb, p)),
+                        "find_skip" => opt(slice::bytes_find_skip(hb, p), jb),
+                        "find_keep" => opt(slice::bytes_find_keep(hb, p), jb),
+                        "rfind_skip" => opt(slice::bytes_rfind_skip(hb, p), jb),
+                        _ => opt(slice::bytes_rfind_keep(hb, p), jb),
+                    }));
+                    writeln!(out, "{}", json!({"ev": op, "h": jb(hb), "n": jb(&a), "ret": ret})).unwrap();
+                    left -= 1;
+                }
+            } )* _ => {} } } }
+            arr_ops!(7, 8, 9, 15, 16, 17, 31, 32, 33, 34, 47, 63, 64, 65);
         }
         // arbitrary (non-UTF-8) bytes through the slice::bytes_* twins
         let raw: [u8; 5] = [b'a', 0x80, 0xA0, 0xC3, 0xFF];
